@@ -385,3 +385,64 @@ Section Generic.
     destruct (val x mod val y =? 0) eqn:E; [left; lia|right]. ifs; lia.
   Qed.
 End Generic.
+
+(* ---------- corollaries used by Properties.v *)
+Lemma arith_exact_repr_lemma :
+  forall o (x y : Z),
+    let rU := Binary union_impl o (MakeBigInt union_impl x) (MakeBigInt union_impl y) in
+    let rF := Binary fallback_impl o (MakeBigInt fallback_impl x) (MakeBigInt fallback_impl y) in
+    match spec_binary o x y with
+    | Some z => rU = Some (MakeBigInt union_impl z) /\ rF = Some z
+    | None => rU = None /\ rF = None
+    end.
+Proof.
+  intros o x y rU rF.
+  destruct (MakeBigInt_ok union_impl union_ok x) as [Cx Vx].
+  destruct (MakeBigInt_ok union_impl union_ok y) as [Cy Vy].
+  destruct (MakeBigInt_ok fallback_impl fallback_ok x) as [Cx' Vx'].
+  destruct (MakeBigInt_ok fallback_impl fallback_ok y) as [Cy' Vy'].
+  pose proof (Binary_ok union_impl union_ok o _ _ Cx Cy) as HU.
+  pose proof (Binary_ok fallback_impl fallback_ok o _ _ Cx' Cy') as HF.
+  rewrite Vx, Vy in HU. rewrite Vx', Vy' in HF. fold rU in HU. fold rF in HF.
+  destruct (spec_binary o x y) as [z|].
+  - destruct rU as [u|]; [|contradiction]. destruct rF as [f|]; [|contradiction].
+    cbn [opt_res] in HU, HF. destruct HU as [CU VU]. destruct HF as [_ VF].
+    split.
+    + f_equal. (* a canonical union value is determined by its integer *)
+      destruct (MakeBigInt_ok union_impl union_ok z) as [Cz Vz].
+      revert CU VU Cz Vz. generalize (MakeBigInt union_impl z). intros w.
+      unfold canonical, value, bigInt. destruct u as [a|a], w as [b|b]; cbn [get union_impl]; intros; subst; try reflexivity;
+        match goal with H : in_int32 ?a = true, H' : negb (in_int32 ?a) = true |- _ => rewrite H in H'; discriminate end.
+    + f_equal. rewrite fallback_value in VF. exact VF.
+  - destruct rU; [contradiction|]. destruct rF; [contradiction|]. split; reflexivity.
+Qed.
+
+Lemma bitwise_bits_lemma :
+  forall I, impl_ok I -> forall (x y : T I) n,
+    canonical I x = true -> canonical I y = true -> 0 <= n ->
+    Z.testbit (value I (And I x y)) n = Z.testbit (value I x) n && Z.testbit (value I y) n /\
+    Z.testbit (value I (Or I x y)) n = Z.testbit (value I x) n || Z.testbit (value I y) n /\
+    Z.testbit (value I (Xor I x y)) n = xorb (Z.testbit (value I x) n) (Z.testbit (value I y) n) /\
+    Z.testbit (value I (Not I x)) n = negb (Z.testbit (value I x) n).
+Proof.
+  intros I OK x y n Hx Hy Hn.
+  destruct (And_ok I OK x y Hx Hy) as [_ A]. destruct (Or_ok I OK x y Hx Hy) as [_ O].
+  destruct (Xor_ok I OK x y Hx Hy) as [_ X]. destruct (Not_ok I OK x Hx) as [_ N].
+  rewrite A, O, X, N. rewrite Z.land_spec, Z.lor_spec, Z.lxor_spec.
+  repeat split. replace (- value I x - 1) with (Z.lnot (value I x)) by (unfold Z.lnot; lia).
+  apply Z.lnot_spec. assumption.
+Qed.
+
+Lemma to_machine_lemma :
+  forall I, impl_ok I -> forall (x : T I), canonical I x = true ->
+    Int64 I x = (if in_int64 (value I x) then Some (value I x) else None) /\
+    AsInt32 I x = (if in_int32 (value I x) then Some (value I x) else None) /\
+    Sign I x = sign_of (value I x).
+Proof.
+  intros I OK x Hx. split; [apply Int64_ok; assumption|]. split; [apply AsInt32_ok; assumption|apply Sign_ok; assumption].
+Qed.
+
+Lemma Compare_exact_lemma :
+  forall I, impl_ok I -> forall c (x y : T I), canonical I x = true -> canonical I y = true ->
+    Compare I c x y = spec_compare c (value I x) (value I y).
+Proof. intros I _. exact (Compare_ok I). Qed.
